@@ -40,7 +40,7 @@ ASSUMPTIONS = [
     'a message element with no children at all (not schema-valid) may classify as its class or as UnknownMosFileType',
     'damaged texts on which ElementTree raises something other than ParseError are not generated',
 ]
-MANDATORY = ['undecodable-declared-encoding', 'str-with-bom-or-foreign-declaration', 'envelope-without-messageID', 'source:relfile', 'decorated', 'utf8-bom', 'namespaced', 'attributes', 'filter:error', 'source:bytes', 'source:file', 'encoding:latin1', 'encoding:utf16', 'encoding:utf16be', 'ea-shape:unlisted', 'ea-shape:listed',
+MANDATORY = ['message-element-without-roID', 'source:ea', 'undecodable-declared-encoding', 'str-with-bom-or-foreign-declaration', 'envelope-without-messageID', 'source:relfile', 'decorated', 'utf8-bom', 'namespaced', 'attributes', 'filter:error', 'source:bytes', 'source:file', 'encoding:latin1', 'encoding:utf16', 'encoding:utf16be', 'ea-shape:unlisted', 'ea-shape:listed',
              'ea-op:unknown', 'ea-op:missing', 'ea-source:absent', 'malformed', 'unknown-root',
              'nested-decoy', 'envelope-permuted', 'plain-tag']
 
@@ -110,7 +110,19 @@ def classify(text, source='str', filt='default'):
     with warnings.catch_warnings():
         warnings.simplefilter('error' if filt == 'error' else ('ignore' if filt == 'ignore' else 'default'))
         try:
-            if source == 'str':
+            if source.startswith('ea:'):
+                # the ElementAction base class classifies too (documented entry point for roElementAction)
+                from mosromgr.mostypes import ElementAction
+                if source == 'ea:str':
+                    mo = ElementAction.from_string(text)
+                elif source == 'ea:bytes':
+                    mo = ElementAction.from_string(text.encode('utf-8'))
+                else:
+                    path = os.path.join(_tmp(), 'ea.mos.xml')
+                    with open(path, 'wb') as f:
+                        f.write(text.encode('utf-8'))
+                    mo = ElementAction.from_file(path)
+            elif source == 'str':
                 mo = MosFile.from_string(text)
             elif source == 'str:bom':
                 # text read from a BOM-prefixed UTF-8 file with encoding='utf-8' keeps U+FEFF
@@ -160,6 +172,12 @@ def judge_doc(case):
     exp = expected(case['doc'])
     if exp is None:
         return []
+    if case.get('source', '').startswith('ea:'):
+        try:
+            if ET.fromstring(case['doc']).find('roElementAction') is None:
+                return []        # the ElementAction entry point is for roElementAction documents
+        except ET.ParseError:
+            return []
     got, site = classify(case['doc'], case.get('source', 'str'), case.get('filter', 'default'))
     if ':undecodable:' in case.get('source', ''):
         exp = set(exp) | {'MosInvalidXML'}
@@ -244,6 +262,19 @@ def record_doc(col, text, classes, sources=('str', 'bytes', 'file'), filters=('d
                         case = {'doc': bare, 'source': source, 'filter': 'default'}
                         col.record(case, True, list(classes) + ['envelope-without-messageID'], judge_doc(case),
                                    key=h64(bare, source))
+                # ... and the message element itself without its roID child (other children kept):
+                # the element's presence decides, not what it holds
+                root2 = ET.fromstring(text)
+                for el in root2:
+                    rid = el.find('roID')
+                    if rid is not None and len(el) > 1:
+                        el.remove(rid)
+                noid = ET.tostring(root2, encoding='unicode')
+                if noid != text and expected(noid) == expected(text):
+                    for source in ('str', 'file'):
+                        case = {'doc': noid, 'source': source, 'filter': 'default'}
+                        col.record(case, True, list(classes) + ['message-element-without-roID'], judge_doc(case),
+                                   key=h64(noid, source))
             except ET.ParseError:
                 pass
     if encodings:
@@ -253,6 +284,8 @@ def record_doc(col, text, classes, sources=('str', 'bytes', 'file'), filters=('d
                 sources += [f'bytes:{enc}', f'file:{enc}']
     if 'file' in sources and h64(text) % 4 == 0:
         sources.append('relfile')
+    if '<roElementAction' in text and h64(text, 'ea') % 3 == 0:
+        sources += ['ea:str', 'ea:bytes', 'ea:file']
     if encodings and h64(text, 'und') % 6 == 0 and expected(text) not in (None, {'MosInvalidXML'}):
         # the document declares an encoding the parser underneath cannot decode: classification is
         # TOTAL - the class the message element determines, or MosInvalidXML, nothing else escapes
